@@ -131,6 +131,10 @@ func (c *NamedCollectionNames) FindRegex(key *regexp.Regexp) []types.MatchData {
 }
 
 func (c *NamedCollectionNames) FindString(key string) []types.MatchData {
+	// bucket keys are stored folded unless the collection is case sensitive (see Map.Add)
+	if !c.collection.isCaseSensitive {
+		key = strings.ToLower(key)
+	}
 	data, ok := c.collection.data[key]
 	if !ok || len(data) == 0 {
 		return nil
